@@ -4,6 +4,7 @@ import (
 	"fmt"
 	"go/token"
 	"go/types"
+	"strings"
 
 	"golang.org/x/tools/go/ssa"
 
@@ -47,6 +48,27 @@ func c15AppendAlias(r *core.Report, scope []*ssa.Function) {
 					c, ok := in.(*ssa.Call)
 					if !ok {
 						continue
+					}
+					// sorting in place: sort.Strings/Ints/Float64s/Slice/SliceStable/Sort/Stable, slices.Sort*
+					if sc := c.Common().StaticCallee(); sc != nil && sc.Pkg != nil && len(c.Common().Args) > 0 {
+						pp := sc.Pkg.Pkg.Path()
+						if (pp == "sort" && (sc.Name() == "Strings" || sc.Name() == "Ints" || sc.Name() == "Float64s" || sc.Name() == "Slice" || sc.Name() == "SliceStable" || sc.Name() == "Sort" || sc.Name() == "Stable")) || (pp == "slices" && (strings.HasPrefix(sc.Name(), "Sort") || sc.Name() == "Reverse")) {
+							arg := c.Common().Args[0]
+							if mi, ok := arg.(*ssa.MakeInterface); ok {
+								arg = mi.X
+							}
+							if _, isSlice := arg.Type().Underlying().(*types.Slice); isSlice {
+								n++
+								name := shortFn(fn)
+								perFn[name]++
+								key := fmt.Sprintf("appendalias:%s#%d(sort)", name, perFn[name])
+								if why := sharedBacking(arg, shared, 0, map[ssa.Value]bool{}); why != "" {
+									r.Bad(key, p.Pos(in.Pos()), pp+"."+sc.Name()+" reorders "+why+" in place: a write into memory that other goroutines using the same object read, and a change of the document (the order of a list is part of it)")
+								} else {
+									r.OK(key, p.Pos(in.Pos()), "the sorted slice is not storage of a shared object")
+								}
+							}
+						}
 					}
 					bi, ok := c.Common().Value.(*ssa.Builtin)
 					if !ok || bi.Name() != "append" || len(c.Common().Args) == 0 {
@@ -94,6 +116,17 @@ func sharedBacking(v ssa.Value, shared map[*types.Named]bool, depth int, seen ma
 			return ""
 		}
 		switch ad := x.X.(type) {
+		case *ssa.UnOp:
+			// *p where p was loaded from a field of a shared object (schema.Type is a *Types)
+			if ad.Op == token.MUL {
+				if fa, ok := ad.X.(*ssa.FieldAddr); ok {
+					bn := core.NamedOf(fa.X.Type())
+					if bn != nil && shared[bn.Origin()] && !freshLocal(fa.X, 0) {
+						_, f := fieldNames(fa.X.Type(), fa.Field)
+						return "the list that field " + f + " of a " + bn.Obj().Name() + " points to, which this call did not create"
+					}
+				}
+			}
 		case *ssa.FieldAddr:
 			bn := core.NamedOf(ad.X.Type())
 			if bn == nil || !shared[bn.Origin()] || freshLocal(ad.X, 0) {
